@@ -83,7 +83,7 @@ func (e *Env) lookup(name string) (Val, bool) {
 	case "nil":
 		return NilV{}, true
 	}
-	if e.fr != nil && e.fr.parent == nil && e.x.freeCells != nil {
+	if (e.fr == nil || e.fr.parent == nil) && e.x.freeCells != nil {
 		if c := e.x.freeCells[name]; c != nil {
 			if v, ok := e.st.cellv[c]; ok {
 				return v, true
